@@ -128,7 +128,47 @@ def rule_no_detached_exec(ctx, rule="R31a"):
                            sp, f, " -> ".join(x.split("::")[-1] if not x.endswith("}") else "::".join(x.split("::")[-3:])
                                               for x in g.chain(tcl, execs[0].path))), b.loc(i),
                        key="%s|%s|%s|%s#%d-task-contains-exec" % (ctx.pid, rule, f, sp, idx))
+                if execs:
+                    uniform_dispatch(ctx, rule, fa, g, b, stop, f)
     ctx.note("R31a: %d spawn sites on the commit / start-up paths inspected" % n)
+
+
+def uniform_dispatch(ctx, rule, fa, g, b, stop, f):
+    """A function that hands executions to detached tasks must hand EVERY execution to them the same way: if the future
+    that contains ClusterAction::exec is spawned on one path and awaited in place on another (say, "when a client waits
+    for the result"), an entry of the second kind overtakes the still-queued tasks of earlier entries."""
+    srcs = {}
+    for i, st in cfg.assigns(b):
+        r = st["r"]
+        if r["k"] == "agg" and r.get("what") in ("coroutine", "coroutine_closure", "closure") and len(st["l"]) == 1:
+            cb = fa.body(r["def"])
+            if cb and any(x.npath == EXEC for x, p_, j in g.closure([cb], stop=stop).values()):
+                srcs[st["l"][0]] = b.loc(i)
+    for i, t in cfg.calls(b):
+        if is_spawn(t) or not t.get("d") or len(t["d"]) != 1:
+            continue
+        tg = g.targets(t)[0]
+        if tg and "Future" in b.local_ty(t["d"][0]) + "".join(x.d.get("ret", "") for x in tg) and \
+                any(x.npath == EXEC for tb in tg for x, p_, j in g.closure([tb], stop=stop).values()):
+            srcs[t["d"][0]] = b.loc(i)
+    modes = {}
+    der = cfg.derived_locals(b, list(srcs), extra_through=("std::future::IntoFuture::into_future", "std::pin::Pin::new_unchecked",
+                                                           "<F as std::future::IntoFuture>::into_future"))
+    for i, t in cfg.calls(b):
+        used = [cfg.op_place(a)[0] for a in t["a"] if cfg.op_place(a) and cfg.op_place(a)[0] in der]
+        if not used:
+            continue
+        last = (cfg.callee_decl(t) or cfg.callee(t) or "").split("::")[-1]
+        if is_spawn(t):
+            modes.setdefault("spawned", []).append(b.loc(i))
+        elif last in ("poll", "block_on", "join", "join_all", "select"):
+            modes.setdefault("awaited in place", []).append(b.loc(i))
+    ok = len(modes) <= 1
+    ctx.ob(rule, "%s:uniform-dispatch" % f, ok,
+           "%d future(s) containing ClusterAction::exec, all dispatched the same way (%s)" % (len(srcs), ", ".join(modes) or "-") if ok else
+           "`%s` spawns the execution of some entries (%s) and awaits the execution of others in place (%s): an entry that "
+           "is executed in place overtakes the queued tasks of earlier entries, so this node applies committed actions out "
+           "of log order" % (f, modes["spawned"][0], modes["awaited in place"][0]), b.where)
 
 
 def rule_ordered(ctx, rule="R31b"):
@@ -235,11 +275,48 @@ def rule_ordered(ctx, rule="R31b"):
             cfg.find_path(b, exb, rets, avoid=leb, leave_start=True) is None
         same = bool(le) and all(sy.op(t["a"][0]).split(".")[0] == sy.op(tt["a"][1]).replace("unwrap_or_default(", "").split(".")[0]
                                 for i, t in ex for j, tt in le)
+        if le and not same:
+            same = same_log_at_callers(fa, b, sy, ex, le)
         ctx.ob(rule, "%s:log_executed-follows-exec" % R.fn_name(b), ok and same,
                "exec(log.data) is followed on every path by log_executed(log id) of the same log" if ok and same else
                "`%s` calls ClusterAction::exec but log_executed does not follow it on every path (for the same log: %s): an "
                "executed entry stays marked unexecuted and is executed again at the next start" % (R.fn_name(b), same), b.loc(exb[0]))
     ctx.floor(rule, "bodies calling ClusterAction::exec in cluster.rs", n, 1)
+
+
+def same_log_at_callers(fa, b, sy, ex, le):
+    """The executing body is a helper that receives the entry and its id as two parameters (`run(log, log_id, ..)`):
+    they belong to the same entry if every call site passes `<x>` and `<x>.db_id` of one `<x>`."""
+    pb = fa.body(b.parent) if b.parent and b.d.get("coroutine") else None
+    if pb is None:
+        return False
+    ps = R.Sym(fa, pb)
+    names = {ps.argname(k): k for k in range(1, pb.d["argc"] + 1)}
+    pairs = set()
+    for i, t in ex:
+        for j, tt in le:
+            a = sy.op(t["a"][0]).split(".")[0]
+            c = sy.op(tt["a"][1]).replace("unwrap_or_default(", "").split(".")[0].rstrip(")")
+            if a not in names or c not in names:
+                return False
+            pairs.add((names[a], names[c]))
+    sites = 0
+    for cb in fa.bodies.values():
+        if cb.crate != b.crate:
+            continue
+        for i, t in cfg.calls(cb):
+            if common.norm(cfg.callee(t) or "") != pb.npath:
+                continue
+            sites += 1
+            cs = R.Sym(fa, cb)
+            for ka, kc in pairs:
+                if len(t["a"]) < max(ka, kc):
+                    return False
+                x = cs.op(t["a"][ka - 1]).split(".")[0]
+                y = cs.op(t["a"][kc - 1]).replace("unwrap_or_default(", "").split(".")[0].rstrip(")")
+                if x != y:
+                    return False
+    return sites > 0
 
 
 def loop_checks(ctx, rule, b, name, src_rx, need_committed):
